@@ -2,7 +2,7 @@
    (compared inside Coq with python-jsonschema's verdicts), and the classifier of the known class
    "fails to parse only because of integer widths / integral floats / repeated members".
    No proofs here. *)
-From VV.SERDE Require Export CorrSerde SchemaOf.
+From VV.SERDE Require Export CorrSerde SchemaOf SchemaStrict.
 
 Inductive dkind := DTable | DPlan | DConfig.
 
@@ -75,3 +75,10 @@ Definition unbounded_bits (cs : list scase) : list (list bool) :=
 (* free-standing documents (python-made schema-valid mutants): model verdicts *)
 Definition doc_bits (shipped : dkind -> schema_doc) (d : dkind * json) : list bool :=
   [decodes (fst d) (snd d); known_C15_unbounded (fst d) (snd d); ob_eqb (valid (shipped (fst d)) (snd d)) true].
+
+(* theorem coverage of a document: [schema-valid; under the hypotheses of decode_of_valid (no repeated member,
+   strictly valid); accepted by the parser model] *)
+Definition cov_bits (shipped : dkind -> schema_doc) (d : dkind * json) : list bool :=
+  [ob_eqb (valid (shipped (fst d)) (snd d)) true; strictly_valid (shipped (fst d)) (snd d); decodes (fst d) (snd d)].
+Definition cov_cases (shipped : dkind -> schema_doc) (cs : list scase) : list (list (list bool)) :=
+  map (fun c => map (cov_bits shipped) (case_docs c)) cs.
